@@ -17,7 +17,7 @@ CONSTANTS Rids,        \* request identifiers
           Outcomes,    \* subset of AllOutcomes
           Options      \* subset of {"unset","Continue","Stop","Undo"}
 
-AllOutcomes == {"success", "successSetsId", "successClearsId", "discover", "retriedSuccess", "typedError", "plainError", "panic", "unrouted", "critical"}
+AllOutcomes == {"success", "successSetsId", "successClearsId", "discover", "retriedSuccess", "deniedByStage", "typedError", "plainError", "panic", "unrouted", "critical"}
 
 VARIABLES st,       \* st[r] \in {"idle","validate","items","done"}
           req,      \* req[r]   the request message descriptor
@@ -37,13 +37,18 @@ Request  == [opt : Options, ver : {"supported", "unsupported"}, count : {"match"
 
 NoReq == [opt |-> "unset", ver |-> "supported", count |-> "match", items |-> <<>>]
 
-Failed(o)       == o \in {"typedError", "plainError", "panic", "unrouted", "critical"}
-CallsHandler(o) == o \notin {"unrouted", "critical", "discover"}     \* "discover": the built-in Discover Versions answer, no handler
+\* "deniedByStage": an item middleware of the application answers the item itself with status Failed and no error, without calling its
+\* continuation. The item is failed like any other (under Stop nothing after it runs); the executor's own error handling never sees it,
+\* so the placeholder stays what it was.
+Failed(o)       == o \in {"typedError", "plainError", "panic", "unrouted", "critical", "deniedByStage"}
+ClearsOnFail(o) == Failed(o) /\ o # "deniedByStage"
+CallsHandler(o) == o \notin {"unrouted", "critical", "discover", "deniedByStage"}     \* "discover": the built-in Discover Versions answer, no handler
 Reason(o) == CASE o = "typedError" -> "ItemNotFound"            \* the typed error the scripted handler returns
                [] o = "plainError" -> "GeneralFailure"
                [] o = "panic"      -> "GeneralFailure"
                [] o = "unrouted"   -> "OperationNotSupported"
                [] o = "critical"   -> "FeatureNotSupported"
+               [] o = "deniedByStage" -> "PermissionDenied"
                [] OTHER            -> "none"
 
 Rejects(q) == q.ver = "unsupported" \/ q.opt = "Undo" \/ q.count = "mismatch"
@@ -106,7 +111,7 @@ Exec(r) ==
           /\ resp' = [resp EXCEPT ![r] = Append(@, [idx |-> i,
                                                      status |-> IF Failed(o) THEN "Failed" ELSE "Success",
                                                      reason |-> Reason(o)])]
-          /\ ph' = [ph EXCEPT ![r] = IF Failed(o) THEN <<>>           \* handleBatchItemError clears it
+          /\ ph' = [ph EXCEPT ![r] = IF ClearsOnFail(o) THEN <<>>     \* handleBatchItemError clears it
                                      ELSE IF o = "successSetsId" THEN <<uid[r], i>>
                                      ELSE IF o = "successClearsId" THEN <<>> ELSE @]      \* a handler may store the empty placeholder
           /\ stopped' = [stopped EXCEPT ![r] = Failed(o) /\ StopOnError(req[r])]
@@ -165,7 +170,7 @@ RejectWholeFor(r) ==
 (* by the items before i OF THE SAME REQUEST only.                          *)
 ExpectedPh(r, i) ==
     LET its == req[r].items
-        Prior == {j \in 1..(i-1) : Failed(its[j].out) \/ its[j].out \in {"successSetsId", "successClearsId"}}
+        Prior == {j \in 1..(i-1) : ClearsOnFail(its[j].out) \/ its[j].out \in {"successSetsId", "successClearsId"}}
     IN IF Prior = {} THEN <<>>
        ELSE LET j == CHOOSE m \in Prior : \A n \in Prior : n <= m
             IN IF its[j].out = "successSetsId" THEN <<uid[r], j>> ELSE <<>>
